@@ -392,8 +392,3 @@ P.not_covered = [
     'bitfieldRotate with Shift == 0 on 32/64-bit types and bitfieldFill with FirstBit == width: shift by the full width (C20)',
     'glm/simd/integer.h (SSE2 interleave): covered by C03',
 ]
-
-import os
-if os.environ.get('C18_PROBE'):   # development aid: run thorough-tier contracts with their declared timeouts
-    for c in P.contracts:
-        c.tier = 'quick'
